@@ -307,11 +307,17 @@ def _norm_func(f):
     return f[:80]
 
 
+def _in_repo(loc):
+    import os
+    root = os.environ.get("VERIF_REPO", "/repo").rstrip("/") + "/"
+    return root in loc or "/repo/" in loc or "/src/cl" in loc or "/src/express/" in loc or "/src/exp" in loc
+
+
 def _top_stepcode_frame(stderr):
     """First frame whose source lies in stepcode (or generated schema code), skipping runtime/libc/harness frames."""
     for m in _FRAME.finditer(stderr):
         func, loc = m.group(2), m.group(3) or ""
-        if "/repo/" in loc or "/src/cl" in loc or "Sdai" in loc or "/.build/" in loc and "engines" not in loc:
+        if _in_repo(loc) or "Sdai" in loc or "/.build/" in loc and "engines" not in loc:
             return _norm_func(func)
     return None
 
@@ -323,7 +329,7 @@ def _recursion_frame(stderr):
     counts = {}
     for m in _FRAME.finditer(stderr):
         func, loc = m.group(2), m.group(3) or ""
-        if "/repo/" in loc or "/src/cl" in loc or "Sdai" in loc:
+        if _in_repo(loc) or "Sdai" in loc:
             f = _norm_func(func)
             counts[f] = counts.get(f, 0) + 1
     rep = sorted(f for f, c in counts.items() if c >= 3)
